@@ -115,7 +115,8 @@ class Run(object):
         self.callers = []             # who is calling into asynq right now: "direct" (item.value() from a body) / "sync"
         self.debug_bids = {}          # id(DebugBatch) -> batch id
         self.last_struct = {}         # t -> [(fid, obj)]
-        self.svars = [None] + [_sv.AsyncScopedValue(0) for _ in range(prog.get("nvars", 0))]
+        nv = prog.get("nvars", 0)
+        self.svars = [None] + [_sv.AsyncScopedValue(None if (i == nv and nv >= 2) else 0) for i in range(1, nv + 1)]
         self.attrobj = _AttrObj(prog.get("nvars", 0))
         self.ctx_objs = {}
         self.depth = 0
@@ -228,7 +229,19 @@ class Run(object):
 
     def probe(self):
         s = _sched.get_scheduler()
-        return len(s._tasks), len(s._batches)
+        held = 0
+        for name in dir(s):
+            if name.startswith("__") or name in ("on_before_batch_flush", "on_after_batch_flush"):
+                continue
+            try:
+                val = getattr(s, name)
+            except Exception:
+                continue
+            if isinstance(val, (list, tuple, set, frozenset)):
+                held += sum(1 for x in val if isinstance(x, _AsyncTask) or isinstance(x, BatchItemBase))
+            elif isinstance(val, dict):
+                held += sum(1 for x in list(val.values()) + list(val.keys()) if isinstance(x, _AsyncTask))
+        return max(held, len(s._tasks)), len(s._batches)
 
     # -- futures ---------------------------------------------------------------------------------
     def register_task(self, t, obj, by):
@@ -260,14 +273,14 @@ class Run(object):
     @staticmethod
     def spelling(d):
         """the same key, written in different ways (positional / keyword / default): dfn(a=1, b=0)"""
-        k, sp = d["key"], d.get("spell", 0)
+        k, sp = -d["key"], d.get("spell", 0)      # keys -1, -2: hash(-1) == hash(-2) in CPython
         if sp == 0:
             return (k,), {}
         if sp == 1:
             return (k, 0), {}
         if sp == 2:
             return (), {"a": k}
-        if sp == 4 and k == 1:
+        if sp == 4 and k == -1:
             return (), {}                 # every parameter left to its default
         if sp == 5:
             return (), {"b": 0, "a": k}
@@ -381,39 +394,90 @@ class Run(object):
 
     def sv_snapshot(self):
         n = self.prog.get("nvars", 0)
-        return [self.svars[i].get() for i in range(1, n + 1)] + [getattr(self.attrobj, "a%d" % i) for i in range(1, n + 1)]
+        vals = [self.svars[i].get() for i in range(1, n + 1)] + [getattr(self.attrobj, "a%d" % i) for i in range(1, n + 1)]
+        return [-1 if v is None else v for v in vals]
 
     # -- task bodies -----------------------------------------------------------------------------
     def _make_dedup_fn(self, g, shared=False):
         from asynq.tools import deduplicate
         me_run = self
 
-        @deduplicate()
+        dd = deduplicate()      # ONE decorator object, applied to functions with different signatures
+
+        @dd
         @asynq.asynq()
-        def dfn(a=1, b=0):
+        def dfn(a=-1, b=0):
             run = _tls.run if shared else me_run
             me = _sched.get_active_task()
             t = run.obj_id[id(me)]
-            return (yield from run._interp(t))
+            gen = run._interp(t)
+            v = exc = None
+            while True:          # manual delegation: `yield from` would turn a thrown GeneratorExit-family error into close()
+                try:
+                    y = gen.send(v) if exc is None else gen.throw(exc)
+                except StopIteration as si:
+                    return si.value
+                try:
+                    v = yield y
+                    exc = None
+                except GeneratorExit as ge:
+                    if type(ge) is GeneratorExit:
+                        gen.close()
+                        raise
+                    exc = ge
+                except BaseException as e:
+                    exc = e
 
         dfn.__name__ = "dfn%d" % g
 
         # the same deduplicated body as an instance method (two instances) and as a static method
         class DHolder(object):
-            @deduplicate()
+            @dd
             @asynq.asynq()
-            def dm(self, a=1, b=0):
+            def dm(self, a=-1, b=0):
                 run = _tls.run if shared else me_run
                 t = run.obj_id[id(_sched.get_active_task())]
-                return (yield from run._interp(t))
+                gen = run._interp(t)
+                v = exc = None
+                while True:          # manual delegation: `yield from` would turn a thrown GeneratorExit-family error into close()
+                    try:
+                        y = gen.send(v) if exc is None else gen.throw(exc)
+                    except StopIteration as si:
+                        return si.value
+                    try:
+                        v = yield y
+                        exc = None
+                    except GeneratorExit as ge:
+                        if type(ge) is GeneratorExit:
+                            gen.close()
+                            raise
+                        exc = ge
+                    except BaseException as e:
+                        exc = e
 
-            @deduplicate()
+            @dd
             @asynq.asynq()
             @staticmethod
-            def ds(a=1, b=0):
+            def ds(a=-1, b=0):
                 run = _tls.run if shared else me_run
                 t = run.obj_id[id(_sched.get_active_task())]
-                return (yield from run._interp(t))
+                gen = run._interp(t)
+                v = exc = None
+                while True:          # manual delegation: `yield from` would turn a thrown GeneratorExit-family error into close()
+                    try:
+                        y = gen.send(v) if exc is None else gen.throw(exc)
+                    except StopIteration as si:
+                        return si.value
+                    try:
+                        v = yield y
+                        exc = None
+                    except GeneratorExit as ge:
+                        if type(ge) is GeneratorExit:
+                            gen.close()
+                            raise
+                        exc = ge
+                    except BaseException as e:
+                        exc = e
 
         h1, h2 = DHolder(), DHolder()
         me_run.keep += [h1, h2]
@@ -431,7 +495,23 @@ class Run(object):
                 @asynq.asynq()
                 def body(self):
                     assert isinstance(self, Holder)
-                    return (yield from run._interp(t))
+                    gen = run._interp(t)
+                    v = exc = None
+                    while True:          # manual delegation: `yield from` would turn a thrown GeneratorExit-family error into close()
+                        try:
+                            y = gen.send(v) if exc is None else gen.throw(exc)
+                        except StopIteration as si:
+                            return si.value
+                        try:
+                            v = yield y
+                            exc = None
+                        except GeneratorExit as ge:
+                            if type(ge) is GeneratorExit:
+                                gen.close()
+                                raise
+                            exc = ge
+                        except BaseException as e:
+                            exc = e
 
             h = Holder()
             self.keep.append(h)
@@ -440,7 +520,23 @@ class Run(object):
         if t % 4 == 2:
             @asynq.asynq(pure=True, cls=VTask)
             def pbody():
-                return (yield from run._interp(t))
+                gen = run._interp(t)
+                v = exc = None
+                while True:          # manual delegation: `yield from` would turn a thrown GeneratorExit-family error into close()
+                    try:
+                        y = gen.send(v) if exc is None else gen.throw(exc)
+                    except StopIteration as si:
+                        return si.value
+                    try:
+                        v = yield y
+                        exc = None
+                    except GeneratorExit as ge:
+                        if type(ge) is GeneratorExit:
+                            gen.close()
+                            raise
+                        exc = ge
+                    except BaseException as e:
+                        exc = e
 
             # a pure function of a custom task class, given the usual conventions by hand
             class _Conv(object):
@@ -454,7 +550,23 @@ class Run(object):
 
         @asynq.asynq()
         def body():
-            return (yield from run._interp(t))
+            gen = run._interp(t)
+            v = exc = None
+            while True:          # manual delegation: `yield from` would turn a thrown GeneratorExit-family error into close()
+                try:
+                    y = gen.send(v) if exc is None else gen.throw(exc)
+                except StopIteration as si:
+                    return si.value
+                try:
+                    v = yield y
+                    exc = None
+                except GeneratorExit as ge:
+                    if type(ge) is GeneratorExit:
+                        gen.close()
+                        raise
+                    exc = ge
+                except BaseException as e:
+                    exc = e
 
         body.__name__ = "task%d" % t
         return body
@@ -493,7 +605,7 @@ class Run(object):
                             elif o == "read":
                                 a = op["a"]
                                 val = run.svars[a].get() if a < 100 else getattr(run.attrobj, "a%d" % (a - 100))
-                                run.emit("Read", t=t, a=a, v=run.enc(val))
+                                run.emit("Read", t=t, a=a, v=V("c", -1) if val is None else run.enc(val))
                             elif o == "set":
                                 # a plain assignment to the scoped value / attribute (inside an override of it)
                                 a = op["a"]
@@ -552,8 +664,15 @@ class Run(object):
                             _poison(got)           # whatever asynq handed us is ours: nobody else may see these changes
                             ru = 0
                             recvs.append(recv)
-                        except GeneratorExit:
-                            run.emit("Closed", t=t, k=k)
+                        except GeneratorExit as ge:
+                            if type(ge) is GeneratorExit:
+                                run.emit("Closed", t=t, k=k)
+                                raise
+                            # a failure of the GeneratorExit family (AsyncTaskCancelledError) delivered at the yield
+                            vid, uid = run.exc_ids(ge)
+                            unc = [f for (f, o) in run.last_struct.get(t, ()) if not o.is_computed()]
+                            run.emit("SegBegin", t=t, k=k + 1, v=V("x", vid), u=uid, a=run.active_id(), xs=unc)
+                            run.emit("SegEnd", t=t, k=k + 1, b=5, s=V("N"), a=run.active_id())
                             raise
                         except BaseException as e:
                             vid, uid = run.exc_ids(e)
@@ -579,6 +698,13 @@ class Run(object):
                     elif tk == "raise":
                         run.emit("SegEnd", t=t, k=k, b=4, s=V("N"), a=run.active_id())
                         raise run.new_err(10000 + t * 100 + k)
+                    elif tk == "raisec":
+                        run.emit("SegEnd", t=t, k=k, b=4, s=V("N"), a=run.active_id())
+                        from asynq.async_task import AsyncTaskCancelledError
+                        e = AsyncTaskCancelledError()
+                        e._vvid = 600000 + t * 100 + k
+                        run.exc_ids(e)
+                        raise e
                     elif tk == "raiseb":
                         run.emit("SegEnd", t=t, k=k, b=4, s=V("N"), a=run.active_id())
                         e = VBaseErr(500000 + t * 100 + k)
@@ -592,9 +718,16 @@ class Run(object):
                 while open_ctx:
                     ctx = open_ctx.pop()
                     try:
-                        ctx.__exit__(type(err), err, err.__traceback__)
+                        if err is None:
+                            ctx.__exit__(None, None, None)
+                        elif ctx.__exit__(type(err), err, err.__traceback__):
+                            # the context manager swallowed the exception, as a `with` statement would let it
+                            run.emit("Swallowed", t=t, a=getattr(ctx, "_c", 0))
+                            err = None
                     except BaseException as e2:
                         err = e2
+                if err is None:
+                    return None
                 if err is e:
                     raise
                 raise err
@@ -653,7 +786,9 @@ class Run(object):
             for k, v in saved.items():
                 setattr(_debug.options, k, v)
             schedmod.utime, schedmod.time = old_utime, old_time
-            self.nprof = len(profiler.flush())       # this thread's profiler buffer (also empties it)
+            stats = profiler.flush()                 # this thread's profiler buffer (also empties it)
+            self.nprof = len(stats)
+            self.prof_names = [str(x.get("name")).split("(")[0][:60] for x in stats]     # "<per-thread id>.<function>"
 
     def _run(self):
         _sched.reset()
